@@ -110,7 +110,7 @@ theorem pc_stepOpen (c : Case) (s : St) (p : Pop) : PcExcept (popJob p) s (stepO
       · exact PcExcept.refl _ s
       · exact (PcExcept.trans (fun _ _ => rfl) (pc_setCap _ _ _)).weaken
   | cancel t f => intro i _; rfl
-  | healall t => intro i _; rfl
+  | healall t k => intro i _; rfl
   | job t j cont =>
     cases cont with
     | false =>
